@@ -13,7 +13,7 @@
     not used afterwards (the Go code shares its nodes with the receiver).
     Min and max orientation are the same theorem: it holds for every comparator satisfying
     [TotalOrder], and the reversed comparator satisfies it too ([C04_reverse_comparator]). *)
-From Algo.C04 Require Import Model Spec ProofsCommon ProofsMaxDeg Proofs.
+From Algo.C04 Require Import Model Spec ProofsCommon ProofsBinary ProofsBinomial ProofsBinomialShape ProofsFib ProofsMaxDeg Proofs.
 Open Scope Z_scope.
 
 (** Binary heap: every history, every initial size, every total-order comparator. *)
@@ -41,6 +41,44 @@ Theorem C04_simulates_fibonacci :
     well_scoped K V true (all_live sizes) ops = true ->
     accepts K V cmp eqv (empty_bags sizes) ops (run K V cmp eqv Fibonacci sizes ops).
 Proof. intros K V cmp eqv TO. exact (fibonacci_simulates cmp eqv TO). Qed.
+
+(** What the package's own [verify()] checks holds in every reachable state
+    ([p_final]: the pool after the history).
+    Binary ([binv]): [n < len(heap)], slot 0 and the slots above [n] are nil, slots [1..n] are not,
+    every parent precedes its children.
+    Binomial ([ninv], [nshape]): heap-ordered trees, [n] = number of nodes, root orders strictly
+    increasing, every tree a binomial tree (a node of order [o] has children of orders [o-1 … 0]).
+    Fibonacci ([finv]): heap-ordered trees with at least [2^degree] nodes, [n] = number of nodes,
+    the entry point [h.ext] of the root ring has an extremal key. *)
+Theorem C04_binary_invariant :
+  forall (K V : Type) (cmp : K -> K -> Z) (eqv : V -> V -> bool), TotalOrder K cmp ->
+  forall sizes ops, well_scoped K V false (all_live sizes) ops = true ->
+  forall i h, nth_error (p_final K V cmp eqv (p_init K V Binary sizes) ops) i = Some (Some h) ->
+              exists b, h = HB b /\ binv cmp b.
+Proof.
+  intros K V cmp eqv TO sizes ops Hws i h Hi.
+  pose proof (binary_invariant cmp eqv TO sizes ops Hws i h Hi) as H. destruct h; simpl in H; try tauto; eauto.
+Qed.
+
+Theorem C04_binomial_invariant :
+  forall (K V : Type) (cmp : K -> K -> Z) (eqv : V -> V -> bool), TotalOrder K cmp ->
+  forall sizes ops, well_scoped K V true (all_live sizes) ops = true ->
+  forall i h, nth_error (p_final K V cmp eqv (p_init K V Binomial sizes) ops) i = Some (Some h) ->
+              exists b, h = HN b /\ ninv cmp b /\ nshape b.
+Proof.
+  intros K V cmp eqv TO sizes ops Hws i h Hi.
+  pose proof (binomial_invariant cmp eqv TO sizes ops Hws i h Hi) as H. destruct h; simpl in H; try tauto; eauto.
+Qed.
+
+Theorem C04_fibonacci_invariant :
+  forall (K V : Type) (cmp : K -> K -> Z) (eqv : V -> V -> bool), TotalOrder K cmp ->
+  forall sizes ops, well_scoped K V true (all_live sizes) ops = true ->
+  forall i h, nth_error (p_final K V cmp eqv (p_init K V Fibonacci sizes) ops) i = Some (Some h) ->
+              exists b, h = HF b /\ finv cmp b.
+Proof.
+  intros K V cmp eqv TO sizes ops Hws i h Hi.
+  pose proof (fibonacci_invariant cmp eqv TO sizes ops Hws i h Hi) as H. destruct h; simpl in H; try tauto; eauto.
+Qed.
 
 (** The degree table suffices: a tree of degree [d] has at least [2^d] nodes (no cuts in the
     non-indexed heap) and [maxDegree(n) = 1 + max {d | φ^d <= n} > log2 n]. *)
@@ -87,6 +125,9 @@ Proof. vm_compute. repeat split. Qed.
 Print Assumptions C04_simulates_binary.
 Print Assumptions C04_simulates_binomial.
 Print Assumptions C04_simulates_fibonacci.
+Print Assumptions C04_binary_invariant.
+Print Assumptions C04_binomial_invariant.
+Print Assumptions C04_fibonacci_invariant.
 Print Assumptions C04_degree_table_bound.
 Print Assumptions C04_reverse_comparator.
 Print Assumptions C04_acceptor_sound.
